@@ -12,6 +12,7 @@ import sympy
 
 from mgfacts import FnView, strip, walk, kids
 from featlib import render
+from norm_c08 import affine
 
 FLIP = {"<": ">", ">": "<", "<=": ">=", ">=": "<=", "!=": "!=", "==": "=="}
 
@@ -59,6 +60,8 @@ class SweepView(FnView):
             if b.get("k") == "Null":
                 return self.array_role(a, depth + 1)
             return None
+        if k == "Member" and strip(n.get("b") or {"k": "This"}).get("k") == "This":
+            return "m:" + n.get("n", "")        # std::vector member subscripted directly: this->_row_ptr_l[i]
         if k == "MCall":
             nm = n.get("n")
             o = strip(n.get("obj") or {})
@@ -89,11 +92,18 @@ def counting_loop(view, loop):
     `T v = init; while(v op bound) { ...; step; }` is accepted as well."""
     if loop.get("k") not in ("For", "While"):
         raise NotRecognised("not a for/while loop")
-    c = strip(loop.get("c") or {})
-    if c.get("k") != "Bin" or c.get("op") not in FLIP:
-        raise NotRecognised("loop condition %s" % render(c))
     body = loop.get("body")
     stmts = body.get("s", []) if body is not None and body.get("k") == "Block" else ([body] if body else [])
+    c = norm_cmp(loop.get("c") or {})
+    if (c is None or c.get("k") == "Bool" and c.get("v")) and stmts and strip(stmts[0]).get("k") == "If" and stmts[0].get("else") is None:
+        # `for(init; ; step) { if(!(cond)) break; ...` == `for(init; cond; step) { ...`
+        t = stmts[0].get("then") or {}
+        ts = t.get("s", []) if t.get("k") == "Block" else [t]
+        if len(ts) == 1 and ts[0].get("k") == "Break":
+            c = norm_cmp(stmts[0].get("c") or {}, negate=True)
+            stmts = stmts[1:]
+    if c is None or c.get("k") != "Bin" or c.get("op") not in FLIP:
+        raise NotRecognised("loop condition %s" % render(strip(loop.get("c") or {})))
     inc = loop.get("inc") if loop["k"] == "For" else None
     init = loop.get("init") if loop["k"] == "For" else None
 
@@ -170,6 +180,51 @@ def cond_on(view, c, d):
     raise NotRecognised("comparison %s" % render(c))
 
 
+NEGATE = {"<": ">=", ">": "<=", "<=": ">", ">=": "<", "!=": "==", "==": "!="}
+
+
+def norm_cmp(c, negate=False):
+    """comparison node of a condition with leading negations folded into the operator: !(a >= b) -> a < b;
+    None if the condition is empty; other conditions are returned unchanged (negated ones as None)"""
+    c = strip(c)
+    if not c or not c.get("k"):
+        return None
+    while c.get("k") == "Un" and c.get("op") == "!":
+        negate = not negate
+        c = strip(c["e"])
+    if c.get("k") == "Bin" and c.get("op") in NEGATE:
+        if negate:
+            c = dict(c)
+            c["op"] = NEGATE[c["op"]]
+        return c
+    return None if negate else c
+
+
+def is_assertion(n):
+    """XASSERT / XASSERTM / ASSERT statement: states a belief, changes nothing"""
+    n = strip(n)
+    return n.get("k") == "Call" and (n.get("callee") or "").endswith("FEAT::assertion")
+
+
+def as_index(n):
+    """built-in subscript or std::vector::operator[] as {'k': 'Index', 'b': base, 'idx': index}; else n"""
+    n = strip(n)
+    if n.get("k") == "OpCall" and n.get("op") == "[]" and len(n.get("a", [])) == 2:
+        return {"k": "Index", "b": n["a"][0], "idx": n["a"][1], "l": n.get("l"), "i": n.get("i")}
+    return n
+
+
+def flat(stmts):
+    """statement list with nested blocks (plain `{ }` scopes and the bodies of inlined helpers) spliced in"""
+    out = []
+    for st in stmts:
+        if st.get("k") == "Block":
+            out += flat(st.get("s", []))
+        else:
+            out.append(st)
+    return out
+
+
 class Sweep:
     pass
 
@@ -194,11 +249,23 @@ def extract_sweep(view, loop):
         raise NotRecognised("outer loop condition %s" % render(o["cond"]))
     initv = view.value(o["init"])
     rhsv = view.value(rhs)
-    if o["step"] == 1 and initv.get("k") == "Int" and int(initv["v"]) == 0 and op == "<" and view.extent_role(rhsv) == "rows" and o["where"] == "inc":
-        sw.dir = "asc"
-    elif o["step"] == -1 and view.extent_role(initv) == "rows" and op == ">" and rhsv.get("k") == "Int" and int(rhsv["v"]) == 0 and o["where"] == "body-first":
-        sw.dir = "desc"
-    else:
+
+    def is_int(n, v):
+        return n.get("k") == "Int" and int(n["v"]) == v
+    # the row index is (loop variable + row_off): `for(i = 0; i < n; ++i)` and `for(i = n; i > 0;) { --i; ...` run over the
+    # rows themselves, `for(ii = n; ii > 0; --ii) { i = ii - 1; ...` and `for(ii = 1; ii <= n; ++ii)` over row + 1
+    row_off = None
+    if o["step"] == 1 and o["where"] == "inc" and view.extent_role(rhsv) == "rows":
+        if is_int(initv, 0) and op in ("<", "!="):
+            sw.dir, row_off = "asc", 0
+        elif is_int(initv, 1) and op == "<=":
+            sw.dir, row_off = "asc", -1
+    elif o["step"] == -1 and view.extent_role(initv) == "rows" and ((op in (">", "!=") and is_int(rhsv, 0)) or (op == ">=" and is_int(rhsv, 1))):
+        if o["where"] == "body-first":
+            sw.dir, row_off = "desc", 0
+        elif o["where"] == "inc":
+            sw.dir, row_off = "desc", -1
+    if row_off is None:
         raise NotRecognised("row loop `%s` is neither 0 <= i < rows ascending nor rows > i >= 0 descending" % render(loop))
     sw.i = i_d
     env = {}
@@ -214,17 +281,17 @@ def extract_sweep(view, loop):
 
     def idx_kind(n):
         n = strip(n)
+        af = affine(view, n)
+        if af is not None and af[0] is not None:
+            if af[0] == i_d:
+                return {0: "i", 1: "i+1"}.get(af[1] - row_off)
+            if k_d[0] is not None and af[0] == k_d[0]:
+                return "k" if af[1] == 0 else None
         if n.get("k") == "Ref":
-            if n["d"] == i_d:
-                return "i"
-            if k_d[0] is not None and n["d"] == k_d[0]:
-                return "k"
             v = view.value(n)
             if v is not n and v.get("k") != "Ref":
                 return idx_kind(v)
-        if n.get("k") == "Bin" and n.get("op") == "+" and strip(n["lhs"]).get("k") == "Ref" and strip(n["lhs"])["d"] == i_d \
-                and strip(n["rhs"]).get("k") == "Int" and int(strip(n["rhs"])["v"]) == 1:
-            return "i+1"
+        n = as_index(n)
         if n.get("k") == "Index":
             r = view.array_role(n["b"])
             if r is not None and idx_kind(n["idx"]) == "k":
@@ -240,7 +307,7 @@ def extract_sweep(view, loop):
         return r, ik
 
     def conv(n, inner=False):
-        n = strip(n)
+        n = as_index(n)
         k = n.get("k")
         if k in ("Int", "Float"):
             return sympy.nsimplify(n["v"]) if k == "Int" else sympy.nsimplify(n.get("text") or n["v"], rational=True)
@@ -283,7 +350,8 @@ def extract_sweep(view, loop):
             if r == "m:_data_d" and ik == "i":
                 sw.diag = "_data_d[i]"
                 return sym["Dinv"]
-            raise NotRecognised("array element %s in the row update" % render(n))
+            # a resolved element of another row / array: a definite, different operand (its own symbol)
+            return sympy.Symbol("%s[%s]" % (r[2:] if r.startswith("m:") else r, ik), commutative=view.comm)
         if k == "Un" and n.get("op") == "-":
             return -conv(n["e"], inner)
         if k in ("Bin",) and n.get("op") in ("+", "-", "*", "/"):
@@ -318,7 +386,7 @@ def extract_sweep(view, loop):
 
     def target(n):
         """('local', d) | ('out_i',) for assignment targets"""
-        n = strip(n)
+        n = as_index(n)
         if n.get("k") == "Ref" and n.get("dk") == "local":
             return ("local", n["d"])
         if n.get("k") == "Index":
@@ -393,13 +461,18 @@ def extract_sweep(view, loop):
         if iv.get("k") == "Bin" and iv.get("op") == "-" and strip(iv["rhs"]).get("k") == "Int":
             off = -int(strip(iv["rhs"])["v"])
             iv = strip(iv["lhs"])
+        iv = as_index(iv)
+        if iv.get("k") != "Index":
+            iv = as_index(view.value(iv))         # hoisted into a const local: `const IT_ jbeg = rptr[i];`
         if iv.get("k") != "Index":
             raise NotRecognised("inner loop start %s" % render(c["init"]))
         inner["start"] = (view.array_role(iv["b"]), idx_kind(iv["idx"]), off)
         l, op2, r = cond_on(view, c["cond"], c["d"])
-        l = strip(l)
+        l = as_index(l)
         if l.get("k") == "Ref":
-            rr = strip(r)
+            rr = as_index(r)
+            if rr.get("k") != "Index":
+                rr = as_index(view.value(rr))     # hoisted into a const local: `const IT_ jend = rptr[i+1];`
             if rr.get("k") != "Index":
                 raise NotRecognised("inner loop bound %s" % render(r))
             inner["guard"] = ("k", op2, (view.array_role(rr["b"]), idx_kind(rr["idx"])))
@@ -413,10 +486,10 @@ def extract_sweep(view, loop):
             raise NotRecognised("inner loop step placement")
         # body: one accumulation
         before = dict(env)
-        for st in c["stmts"]:
-            if st.get("k") in ("Block",):
-                raise NotRecognised("nested block in the inner loop")
+        for st in flat(c["stmts"]):
             if st.get("k") == "Decl" and all(v.get("init") is not None and not view.writes.get(v["d"]) for v in st.get("vars", [])):
+                continue
+            if is_assertion(st):
                 continue
             if not assign_stmt(st, inner=True):
                 raise NotRecognised("statement %s in the inner loop" % render(st))
@@ -452,7 +525,7 @@ def extract_sweep(view, loop):
         k_after = k_d[0]
         return inner
 
-    for st in o["stmts"]:
+    for st in flat(o["stmts"]):
         k = st.get("k")
         if k == "Decl":
             for v in st.get("vars", []):
@@ -466,6 +539,8 @@ def extract_sweep(view, loop):
                         if view.writes.get(v["d"]):
                             raise
                         env[v["d"]] = ("poison", str(ex))   # may still serve as an index (resolved structurally)
+            continue
+        if is_assertion(st):
             continue
         if k in ("For", "While"):
             if sw.inner is not None:
@@ -489,6 +564,59 @@ def extract_sweep(view, loop):
 
 
 def outer_loops(view):
-    """top-level for loops of the function body (sweeps) in source order"""
-    body = view.fn.body
-    return [s for s in body.get("s", []) if s.get("k") in ("For", "While")]
+    """row loops (sweeps) of the function in execution order.  Blocks (also the bodies of inlined helpers, see
+    norm_c08.Inliner) are flattened; the shortcut `if(rows == 0) return;` is skipped (the sweeps do nothing then).
+    Any other statement that could run or hide a sweep — a loop under a condition, a do-loop, a call of a member
+    function or a call that receives one of the vectors / their element pointers — raises NotRecognised: "no sweep
+    found" is only a verdict when nothing unmodelled can provide one."""
+    loops = []
+
+    def vec_use(n):
+        for x in walk(n):
+            if x.get("k") == "Ref" and view.array_role(x) in ("out", "in"):
+                return True
+        return False
+
+    def empty_shortcut(s):
+        if s.get("else") is not None:
+            return False
+        t = s.get("then") or {}
+        ts = t.get("s", []) if t.get("k") == "Block" else [t]
+        if len(ts) != 1 or ts[0].get("k") != "Return" or ts[0].get("e") is not None:
+            return False
+        c = strip(s.get("c") or {})
+        if c.get("k") != "Bin":
+            return False
+        op = c.get("op")
+        for x, y, o in ((c["lhs"], c["rhs"], op), (c["rhs"], c["lhs"], FLIP.get(op))):
+            yv = view.value(y)
+            if view.extent_role(x) == "rows" and yv.get("k") == "Int":
+                if (o in ("==", "<=") and int(yv["v"]) == 0) or (o == "<" and int(yv["v"]) == 1):
+                    return True         # rows == 0 / rows <= 0 / rows < 1
+        return False
+
+    def rec(stmts):
+        for s in stmts:
+            k = s.get("k")
+            if k == "Block":
+                rec(s.get("s", []))
+            elif k in ("For", "While"):
+                loops.append(s)
+            elif k == "Decl":
+                continue
+            elif k == "If" and empty_shortcut(s):
+                continue
+            else:
+                inner = [x for x in walk(s) if x.get("k") in ("For", "While", "Do", "ForRange")]
+                calls = [x for x in walk(s) if x.get("k") == "MCall" and (x.get("obj") is None or strip(x["obj"]).get("k") == "This")]
+                passed = [x for x in walk(s) if x.get("k") in ("Call", "MCall") and any(vec_use(a) for a in x.get("a", []))]
+                if inner:
+                    raise NotRecognised("loop inside `%s` (line %s): conditional / nested sweeps are not modelled" % (render(s)[:50], s.get("l")))
+                if calls:
+                    raise NotRecognised("call of the member function %s() (line %s), which may perform a sweep" % (calls[0].get("n"), s.get("l")))
+                if passed:
+                    raise NotRecognised("the vectors are handed to %s (line %s)" % (passed[0].get("n") or passed[0].get("callee"), s.get("l")))
+                if k in ("Assign", "OpCall") and vec_use(s):
+                    raise NotRecognised("statement `%s` outside a row loop touches the vectors" % render(s)[:60])
+    rec(view.fn.body.get("s", []))
+    return loops
